@@ -36,6 +36,10 @@ func verifRandomText(rng *rand.Rand, n int, nlRate int) string {
 		switch {
 		case x < nlRate:
 			/* a line break usually comes bare, but may carry styling like any character */
+			if rng.Intn(5) == 0 {
+				/* a line end as some systems write it: a carriage return (white space like any other) before the break */
+				verifStyled(&b, "\r", open[:len(open)*rng.Intn(2)])
+			}
 			if rng.Intn(4) == 0 {
 				verifStyled(&b, "\n", open)
 			} else {
